@@ -234,16 +234,17 @@ class Check:
         return ob
 
     def canary(self, contract, src_root=None):
-        """vacuity guard: a deliberately false postcondition must be refuted with a model (the pipeline can fail)"""
-        import copy
-        c = copy.copy(contract)
-        c.ensures = [('canary-false', lambda params, r: z3.BoolVal(False))]; c.on_outcomes = None
-        rep = verify(c, self.registry, src_root or SRC_ROOT)
-        ok = rep.status == 'ok' and any(o.clause.startswith('ensures:canary') and o.result in ('failed', 'undecided') for o in rep.obligations)
-        if rep.status == 'ok' and not any(o.clause.startswith('ensures:canary') for o in rep.obligations):
-            ok = any(o.kind in ('raises', 'escape') for o in rep.obligations)       # function that never returns normally
+        """vacuity guard: a deliberately false postcondition on a reachable path of the last report must be refuted (the pipeline can fail)"""
+        rep = next((r for r in reversed(self.reports) if r.contract is contract), None)
+        ok = False
+        if rep is not None and rep.status == 'ok':
+            for kind, p, v in getattr(rep, 'outs', []):
+                ob = Obligation(contract.name, 'canary-false', 'canary', p.pc, z3.BoolVal(False), True)
+                discharge(ob, None, use_external=False)
+                ok = ob.result == 'failed'
+                break
         self.canaries.append({'function': contract.name, 'refuted': ok})
-        if not ok: self.faults.append(f'canary for {contract.name} was not refuted: pipeline vacuous')
+        if rep is not None and rep.status == 'ok' and not ok: self.faults.append(f'canary for {contract.name} was not refuted: pipeline vacuous')
         return ok
 
     # ---- tier B: bounded stand-in
